@@ -102,6 +102,11 @@ def first_order_match(pat, t, inst=None):
                 # bound variables
                 if bd_vars and t.has_vars(bd_vars):
                     raise MatchException(trace)
+                # The type of the variable must match the type of the term
+                try:
+                    pat.T.match_incr(t.get_type(), inst.tyinst)
+                except TypeMatchException:
+                    raise MatchException(trace)
                 inst[pat.head.name] = t
             else:
                 if inst[pat.head.name] != t:
@@ -134,6 +139,10 @@ def first_order_match(pat, t, inst=None):
                 if heuristic_match:
                     # Heuristic matching: just assign pat.fun to t.fun.
                     if t.is_comb():
+                        # The function part must not contain bound variables
+                        # of the enclosing abstractions.
+                        if bd_vars and t.fun.has_vars(bd_vars):
+                            raise MatchException(trace)
                         try:
                             pat.head.T.match_incr(t.fun.get_type(), inst.tyinst)
                         except TypeMatchException:
